@@ -261,7 +261,7 @@ class PyExec:
         st = State()
         args, assumptions = contract.setup(self)
         st.pc.extend(assumptions)
-        for a in fn.args.args:
+        for a in list(fn.args.args) + list(fn.args.kwonlyargs):
             if a.arg not in args:
                 raise PyNotSupported("contract of %s gives no value for parameter %s" % (qual, a.arg))
             st.env[a.arg] = args[a.arg]
@@ -443,6 +443,8 @@ class PyExec:
                 o[k] = v
             elif isinstance(o, list) and isinstance(k, int):
                 o[k] = v
+            elif isinstance(o, list) and isinstance(k, slice) and k == slice(None, None, None) and isinstance(v, list):
+                o[:] = v
             else:
                 h = self.reg.hooks.get('setitem')
                 if h is None or not h(self, st, o, k, v):
@@ -1058,6 +1060,12 @@ class PyExec:
             return
         raise PyNotSupported("subscript %r[%r] (line %d)" % (o, k, n.lineno))
 
+    def ev_Slice(self, n, st):
+        if n.lower is None and n.upper is None and n.step is None:
+            yield st, slice(None, None, None)
+        else:
+            raise PyNotSupported("slice object with bounds outside a subscript load")
+
     def ev_JoinedStr(self, n, st):
         raise PyNotSupported("f-string")
 
@@ -1149,6 +1157,9 @@ class PyExec:
                 raise PyNotSupported("constructor %s" % f[1])
             yield from h(self, st, pos, kw, n)
             return
+        if isinstance(f, PObj) and '$call' in f.attrs:
+            yield from f.attrs['$call'](self, st, f, pos, kw, n)
+            return
         raise PyNotSupported("call of %r (line %d)" % (f, n.lineno))
 
     def call_contract(self, con, pos, kw, st, n):
@@ -1166,7 +1177,7 @@ class PyExec:
         # inline
         saved = dict(st.env)
         params = [a.arg for a in fn.args.args]
-        if len(pos) > len(params):
+        if len(pos) > len(params) or any(k not in params + [a.arg for a in fn.args.kwonlyargs] for k in kw):
             yield st, Exc('TypeError')
             return
         for p, v in zip(params, pos):
@@ -1203,6 +1214,10 @@ class PyExec:
             return
         if isinstance(o, list) and name == 'append':
             o.append(pos[0])
+            yield st, None
+            return
+        if isinstance(o, list) and name == 'insert' and isinstance(pos[0], int):
+            o.insert(pos[0], pos[1])
             yield st, None
             return
         if isinstance(o, list) and name == 'extend' and isinstance(pos[0], (list, tuple)):
@@ -1359,7 +1374,7 @@ class PyExec:
             yield from h(self, st, pos, kw, n)
 
 
-BUILTIN_EXC = {'ValueError', 'TypeError', 'KeyError', 'IndexError', 'ZeroDivisionError', 'AssertionError',
+BUILTIN_EXC = {'NameError', 'FileNotFoundError', 'ValueError', 'TypeError', 'KeyError', 'IndexError', 'ZeroDivisionError', 'AssertionError',
                'NotImplementedError', 'OverflowError', 'OSError', 'IOError', 'AttributeError', 'RuntimeError',
                'Exception', 'UnicodeDecodeError', 'UnicodeError', 'LookupError', 'ArithmeticError', 'EnvironmentError'}
 
@@ -1369,7 +1384,7 @@ EXC_PARENTS = {
     'UnicodeDecodeError': 'UnicodeError', 'UnicodeError': 'ValueError', 'ValueError': 'Exception',
     'TypeError': 'Exception', 'AssertionError': 'Exception', 'NotImplementedError': 'RuntimeError',
     'RuntimeError': 'Exception', 'OSError': 'Exception', 'IOError': 'OSError', 'EnvironmentError': 'OSError',
-    'AttributeError': 'Exception',
+    'AttributeError': 'Exception', 'NameError': 'Exception', 'FileNotFoundError': 'OSError',
     # cffi's own (src/cffi/error.py)
     'FFIError': 'Exception', 'CDefError': 'Exception', 'VerificationError': 'Exception',
     'VerificationMissing': 'Exception', 'PkgConfigError': 'Exception',
